@@ -197,7 +197,8 @@ def gen_c19(rnd, sid, method):
     # the child may end by itself at some point
     nstr = rnd.choice([0, 0, 1, 2])
     for k in range(nstr):
-        L.append("S stranger %d" % (300 + k))
+        # (older than the library's children: wait4(-1) returns them first)
+        L.insert(0, "S stranger %d" % (300 + k))
     for q in range(1, 12):
         c = rnd.random()
         if c < 0.25:
